@@ -89,9 +89,8 @@ def fsize_out_limit(scr):
             out = os.path.join(wd, "out.json")
             p = subprocess.run([PY, "-m", "scriptplan.cli.plan", "report", "--output", out, src], cwd=wd, env=env_for(scr, hooks=False, extra={"TMPDIR": wd}),
                                stdout=subprocess.PIPE, stderr=subprocess.PIPE, timeout=300)
-            if p.returncode != 0 or not os.path.exists(out):
-                raise MachineryError("calibration run for the output size failed: " + p.stderr.decode(errors="replace")[-300:])
-            _FSIZE_OUT[scr] = os.path.getsize(out) - 20
+            # (a tree on which this plain run fails is judged by the situations of the check, not here: any limit will do then)
+            _FSIZE_OUT[scr] = os.path.getsize(out) - 20 if os.path.exists(out) and os.path.getsize(out) > 40 else 400
         finally:
             shutil.rmtree(wd, ignore_errors=True)
     return _FSIZE_OUT[scr]
